@@ -261,7 +261,7 @@ pub fn build_synth(s: &Synth) -> Option<Pos> {
 /// G3 motif families. `a` are free parameters (squares, piece selectors); each family is a
 /// parameterised constructor, and wherever a marker is involved the double step is *played*
 /// in the reference from a pre-position, so the marker arises by a legal move.
-pub const MOTIFS: u8 = 12;
+pub const MOTIFS: u8 = 13;
 
 fn put(p: &mut Pos, s: u8, c: C, k: P) -> Option<()> {
     if p.sq[s as usize].is_some() {
@@ -622,6 +622,70 @@ pub fn build_motif(kind: u8, a: &[u8]) -> Option<Pos> {
             let keep: Vec<u8> = (1..7).chain((1..8).map(|r| mk(kf, r).unwrap())).collect();
             finish(p, rest(2), &keep, None)
         }
+        // 12: back-rank battery: castled kings behind pawn shields, heavy pieces doubled on an
+        //     open file against defended back-rank pieces -- forced mates of different lengths
+        //     through capture sequences (tactical positions random placement never produces)
+        12 => {
+            let bkf = 1 + (g(0) % 6) as i8; // black king file b..g on rank 8
+            put(&mut p, mk(bkf, 7)?, C::Black, P::King)?;
+            for df in [-1i8, 0, 1] {
+                if g(1) & (1 << (df + 1)) == 0 || df == 0 {
+                    if let Some(s) = mk(bkf + df, 6) {
+                        let _ = put(&mut p, s, C::Black, P::Pawn);
+                    }
+                } else if g(2) & (1 << (df + 1)) == 0 {
+                    if let Some(s) = mk(bkf + df, 5) {
+                        let _ = put(&mut p, s, C::Black, P::Pawn);
+                    }
+                }
+            }
+            let wkf = 1 + (g(3) % 6) as i8;
+            put(&mut p, mk(wkf, 0)?, C::White, P::King)?;
+            for df in [-1i8, 0, 1] {
+                if g(4) & (1 << (df + 1)) == 0 || df == 0 {
+                    if let Some(s) = mk(wkf + df, 1) {
+                        let _ = put(&mut p, s, C::White, P::Pawn);
+                    }
+                }
+            }
+            // the battle file: not a king file
+            let files: Vec<i8> = (0..8).filter(|f| (*f - bkf).abs() >= 2 && (*f - wkf).abs() >= 1).collect();
+            if files.is_empty() {
+                return None;
+            }
+            let bf = files[(g(5) as usize * files.len()) >> 8];
+            let heavy = |x: u8| if x % 3 == 0 { P::Queen } else { P::Rook };
+            // white battery on the file (ranks 1..4), black defenders on the back rank and around
+            let nw = 1 + g(6) % 3;
+            for i in 0..nw as i8 {
+                let _ = put(&mut p, mk(bf, i + (g(7) % 2) as i8)?, C::White, heavy(g(8 + i as usize)));
+            }
+            let _ = put(&mut p, mk(bf, 7)?, C::Black, [P::Rook, P::Queen, P::Bishop, P::Knight][(g(11) % 4) as usize]);
+            let nb = g(12) % 4;
+            for i in 0..nb as usize {
+                let s = mk((g(13 + i) % 8) as i8, 7 - (g(17 + i) % 3) as i8)?;
+                let _ = put(&mut p, s, C::Black, [P::Rook, P::Bishop, P::Knight, P::Queen, P::Knight][(g(21 + i) % 5) as usize]);
+            }
+            if g(25) % 2 == 0 {
+                let _ = put(&mut p, mk((g(26) % 8) as i8, 2 + (g(27) % 3) as i8)?, C::White, [P::Bishop, P::Knight][(g(28) % 2) as usize]);
+            }
+            p.turn = if g(29) & 1 == 0 { C::White } else { C::Black };
+            p.half = (g(30) % 20) as u32;
+            p.full = 20;
+            // a piece that leaves the side not to move in check is removed instead of rejecting
+            let mut guard = 0;
+            while !p.unplayable_reasons().is_empty() && guard < 6 {
+                let them = p.turn.flip();
+                let k = p.king(them)?;
+                let att = p.attackers(k, p.turn);
+                match att.first() {
+                    Some(a) if p.sq[*a as usize].map_or(false, |x| x.1 != P::King) => p.sq[*a as usize] = None,
+                    _ => return None,
+                }
+                guard += 1;
+            }
+            finish(p, rest(31), &[], None)
+        }
         // 11: en-passant capture that discovers check on the *enemy* king (both pawns leave a rank)
         _ => {
             let f = 1 + (g(0) % 6) as i8;
@@ -662,7 +726,7 @@ pub fn root_strategy(max_pieces: usize) -> impl Strategy<Value = Root> {
     prop_oneof![
         5 => (0u16..ROOTS.len() as u16, any::<bool>()).prop_map(|(idx, mirror)| Root::Named { idx, mirror }),
         4 => synth_strategy(max_pieces).prop_map(Root::Synth),
-        4 => (0u8..MOTIFS, prop::collection::vec(any::<u8>(), 12..40), any::<bool>()).prop_map(|(kind, a, mirror)| Root::Motif { kind, a, mirror }),
+        4 => (0u8..MOTIFS, prop::collection::vec(any::<u8>(), 12..44), any::<bool>()).prop_map(|(kind, a, mirror)| Root::Motif { kind, a, mirror }),
     ]
 }
 
